@@ -33,7 +33,9 @@ ShapeRank(sh) == Len(sh) * 10000 + Code(sh[1]) * 256
 VarNames == <<"x", "y", "z">>
 VarName(p, k) == VarNames[((p + k - 2) % 3) + 1]
 
-MethSets == [G |-> <<"GET">>, P |-> <<"POST">>, GP |-> <<"GET", "POST">>]
+(* GR: GET and every other method a path item can declare (CONNECT is not one of them) *)
+MethSets == [G |-> <<"GET">>, P |-> <<"POST">>, GP |-> <<"GET", "POST">>,
+             GR |-> <<"GET", "PUT", "PATCH", "DELETE", "HEAD", "OPTIONS", "TRACE">>]
 MethKeys == {"G", "P", "GP"}
 
 Seg(sym, p, k) ==
@@ -64,6 +66,19 @@ OtherEnc == [abs |-> TRUE, scheme |-> "http", host |-> <<L("other"), L("example"
              port |-> <<>>, base |-> <<"my%20api">>, slash |-> FALSE]
 OtherHost == [abs |-> TRUE, scheme |-> "http", host |-> <<L("other"), L("example"), L("com")>>,
               port |-> <<>>, base |-> <<>>, slash |-> FALSE]
+(* lists of servers that agree in everything but one component, and one that repeats a server *)
+ApiHttp == [AbsV1 EXCEPT !.scheme = "http"]
+Api8443 == [AbsV1 EXCEPT !.port = <<L("8443")>>]
+OtherHttps == [OtherHost EXCEPT !.scheme = "https"]
+(* server variables in the base path (WithBV: segment i of the base path is the variable v, its default is  *)
+(* the segment), and server variables -- in the base path, the host, the port -- that are named like a     *)
+(* variable of a path template ("x": the first variable of the lowest-ranked template and others, "y": the *)
+(* first variable of the second template / the second of the first): ONE map of path parameters is         *)
+(* returned, and what it holds under a shared name must be the path template's value                       *)
+WithBV(sv, bv) == [bv |-> bv] @@ sv
+RelV1 == [abs |-> FALSE, base |-> <<"v1">>, slash |-> FALSE]
+(* the scheme as a server variable with an enum: {scheme}://api.example.com/v1, scheme in {https, http}, default https *)
+AbsSchV == [sch |-> [v |-> "scheme", enum |-> <<"https", "http">>]] @@ AbsV1
 ServerShapes ==
    [none     |-> <<>>,
     rel      |-> <<[abs |-> FALSE, base |-> <<"b">>, slash |-> FALSE]>>,
@@ -76,22 +91,44 @@ ServerShapes ==
     two      |-> <<AbsV1, OtherEnc>>,
     \* one base path is a string prefix of the other (/v1 and /v10)
     relpfx   |-> <<[abs |-> FALSE, base |-> <<"v1">>, slash |-> FALSE], [abs |-> FALSE, base |-> <<"v10">>, slash |-> FALSE]>>,
-    abspfx   |-> <<AbsV1, [AbsV1 EXCEPT !.base = <<"v10">>]>>]
+    abspfx   |-> <<AbsV1, [AbsV1 EXCEPT !.base = <<"v10">>]>>,
+    schemes  |-> <<ApiHttp, AbsV1>>,                             \* http://api.example.com/v1, https://api.example.com/v1
+    ports    |-> <<Api8443, AbsV1>>,                             \* https://api.example.com:8443/v1, https://api.example.com/v1
+    dup      |-> <<AbsV1, [AbsV1 EXCEPT !.slash = TRUE]>>,       \* https://api.example.com/v1, https://api.example.com/v1/
+    absbv    |-> <<WithBV([AbsV1 EXCEPT !.base = <<"v1", "api">>], <<[i |-> 1, v |-> "ver"]>>)>>,      \* https://api.example.com/{ver}/api
+    relbv    |-> <<WithBV([abs |-> FALSE, base |-> <<"b", "v1">>, slash |-> FALSE], <<[i |-> 2, v |-> "ver"]>>)>>,   \* /b/{ver}
+    absbvx   |-> <<WithBV(AbsV1, <<[i |-> 1, v |-> "x"]>>)>>,    \* https://api.example.com/{x}
+    relbvx   |-> <<WithBV(RelV1, <<[i |-> 1, v |-> "y"]>>)>>,    \* /{y}
+    abshx    |-> <<[AbsV1 EXCEPT !.host = <<[v |-> "x", d |-> "api"], L("example"), L("com")>>]>>,    \* https://{x}.example.com/v1
+    abspx    |-> <<[AbsV1 EXCEPT !.port = <<[v |-> "y", d |-> "8443"]>>]>>,
+    absschv  |-> <<AbsSchV>>,                                    \* {scheme}://api.example.com/v1
+    schvdup  |-> <<ApiHttp, AbsSchV>>]                           \* http://api.example.com/v1, {scheme}://api.example.com/v1 (covers the first)                             \* https://api.example.com:{y}/v1
 (* path-level servers: the document declares https://api.example.com/v1, the path item   *)
 (* of the lowest-ranked ("psfirst") / highest-ranked ("pslast") template declares        *)
 (* http://other.example.com instead                                                      *)
-OverrideKeys == {"psfirst", "pslast"}
+(* ("psschemes": the last template's path item declares http://other.example.com and     *)
+(* https://other.example.com)                                                            *)
+(* ("psrel": the first template's path item declares the relative server /b; "psvar": it  *)
+(* declares http://{x}.example.com, a host variable named like a path variable)           *)
+OverrideKeys == {"psfirst", "pslast", "psschemes", "psrel", "psvar"}
+LastOverrideKeys == {"pslast", "psschemes"}
+OwnServers(sk) == CASE sk = "psfirst" -> <<OtherHost>> [] sk = "pslast" -> <<OtherEnc>> [] sk = "psschemes" -> <<OtherHost, OtherHttps>>
+                    [] sk = "psrel" -> <<[abs |-> FALSE, base |-> <<"b">>, slash |-> FALSE]>>
+                    [] sk = "psvar" -> <<[OtherHost EXCEPT !.host = <<[v |-> "x", d |-> "other"], L("example"), L("com")>>]>>
 ServerKeys == DOMAIN ServerShapes \cup OverrideKeys
 SrvRank(k) == CASE k = "none" -> 1 [] k = "rel" -> 2 [] k = "relslash" -> 3 [] k = "relroot" -> 4
                 [] k = "abs" -> 5 [] k = "absvar" -> 6 [] k = "two" -> 7 [] k = "psfirst" -> 8 [] k = "pslast" -> 9
-                [] k = "relpfx" -> 10 [] k = "abspfx" -> 11
+                [] k = "relpfx" -> 10 [] k = "abspfx" -> 11 [] k = "schemes" -> 12 [] k = "ports" -> 13 [] k = "dup" -> 14
+                [] k = "absbv" -> 15 [] k = "relbv" -> 16 [] k = "absbvx" -> 17 [] k = "relbvx" -> 18 [] k = "abshx" -> 19
+                [] k = "abspx" -> 20 [] k = "psschemes" -> 21 [] k = "absschv" -> 22 [] k = "schvdup" -> 23
+                [] k = "psrel" -> 24 [] k = "psvar" -> 25
 
-WithOwn(t, sv) == [segs |-> t.segs, ops |-> t.ops, servers |-> <<sv>>]
+WithOwn(t, svs) == [segs |-> t.segs, ops |-> t.ops, servers |-> svs]
 Doc(tm, sk) ==
    LET ts == Templates(tm) IN
    IF sk \in OverrideKeys
-   THEN LET w == IF sk = "psfirst" THEN 1 ELSE Len(ts) IN
-        [templates |-> [k \in 1..Len(ts) |-> IF k = w THEN WithOwn(ts[k], IF sk = "psfirst" THEN OtherHost ELSE OtherEnc) ELSE ts[k]], servers |-> <<AbsV1>>]
+   THEN LET w == IF sk \in LastOverrideKeys THEN Len(ts) ELSE 1 IN
+        [templates |-> [k \in 1..Len(ts) |-> IF k = w THEN WithOwn(ts[k], OwnServers(sk)) ELSE ts[k]], servers |-> <<AbsV1>>]
    ELSE [templates |-> ts, servers |-> ServerShapes[sk]]
 
 -----------------------------------------------------------------------------
@@ -143,6 +180,15 @@ Under(s, p) ==
                   port |-> [i \in 1..Len(s.port) |-> Dflt(s.port[i])], path |-> s.base \o p]
    ELSE [abs |-> FALSE, path |-> s.base \o p]
 
+(* the same with every host and base-path variable of the server at the value val (a port variable stays at *)
+(* its default: another port is an open region)                                                              *)
+HasVars(s) == HostVarNames(s) \cup BaseVarNames(s) # {}
+UnderAlt(s, p, val) ==
+   LET b == [i \in 1..Len(s.base) |-> IF BaseVarAt(s, i) THEN val ELSE s.base[i]] IN
+   IF s.abs THEN [abs |-> TRUE, scheme |-> s.scheme, host |-> [i \in 1..Len(s.host) |-> IF IsVar(s.host[i]) THEN val ELSE s.host[i].l],
+                  port |-> [i \in 1..Len(s.port) |-> Dflt(s.port[i])], path |-> b \o p]
+   ELSE [abs |-> FALSE, path |-> b \o p]
+
 AbsAt(scheme, host, port, p) == [abs |-> TRUE, scheme |-> scheme, host |-> host, port |-> port, path |-> p]
 
 (* paths that continue the server's base path inside its last segment: /v1 -> /v10/<p>,  *)
@@ -179,7 +225,7 @@ ServerVariants(doc, p) ==
                  ELSE {})
 
 MainMethods == {"GET", "POST"}
-OddMethods == {"DELETE", "PROPFIND", "get", "HEAD", "OPTIONS"}      \* HEAD is not GET: a template that declares only GET has no HEAD operation
+OddMethods == {"DELETE", "PROPFIND", "get", "HEAD", "OPTIONS", "PUT", "PATCH", "TRACE", "CONNECT"}      \* HEAD is not GET: a template that declares only GET has no HEAD operation
 
 (* a relative URL must not start with "//" (it would be read as an authority) *)
 WellFormed(r) == Len(r.u.path) > 0 /\ (r.u.abs \/ r.u.path[1] # "" \/ Len(r.u.path) = 1)
@@ -198,6 +244,8 @@ Requests(doc) ==
        T == {doc.templates[k] : k \in 1..Len(doc.templates)}
        kind == KindOf(doc)
        main == {[m |-> m, u |-> Under(sv, p)] : m \in MainMethods, p \in ResPaths(doc), sv \in AllServers(doc)}
+       \* (undeclared for a template with GET / POST only, declared ones for a template with the method set GR;
+       \*  CONNECT is a method no path item can declare)
        odd == {[m |-> m, u |-> Under(S[1], BaseFill(t))] : m \in OddMethods, t \in T}
        srv == UNION {{[m |-> t.ops[1].m, u |-> u] : u \in ServerVariants(doc, BaseFill(t))} : t \in T}
        \* every fill of every template again with "?", a query, a query and a fragment, a fragment alone
@@ -206,7 +254,21 @@ Requests(doc) ==
        encv == IF kind = "mixed" THEN {}
                ELSE UNION {{[m |-> t.ops[1].m, u |-> Under(S[1], [BaseFill(t) EXCEPT ![i] = x])] :
                               i \in {j \in 1..Len(t.segs) : IsVar(t.segs[j])}, x \in {"x%20y", "a%2Fb"}} : t \in T}
-   IN {r \in main \cup odd \cup srv \cup tails \cup encv : WellFormed(r)}
+       \* server variables at other values than their defaults: "v2", and "v" -- the value BaseFill gives a path variable
+       altv == UNION {{[m |-> t.ops[1].m, u |-> UnderAlt(sv, BaseFill(t), val)] : val \in {"v2", "v"}, sv \in {x \in AllServers(doc) : HasVars(x)}} : t \in T}
+       \* a scheme variable at each of its values, and at one outside its enum
+       schv == UNION {UNION {{[m |-> t.ops[1].m, u |-> [Under(sv, BaseFill(t)) EXCEPT !.scheme = sc]] :
+                                sc \in SchemeSet(sv) \cup {"ftp"}} : sv \in {x \in AllServers(doc) : HasSchemeVar(x)}} : t \in T}
+       \* the same request URLs in server form (Request.Host + Request.TLS + path-only URL): every template's base fill
+       \* under every declared server, the URLs that miss or vary the server, the values of a scheme variable,
+       \* one tail -- wherever the URL is absolute with a scheme a server can be reached by
+       sform == {[m |-> r.m, u |-> [form |-> "server"] @@ r.u] :
+                   r \in {x \in srv \cup schv \cup altv
+                                \cup UNION {{[m |-> t.ops[1].m, u |-> Under(sv, BaseFill(t))] : sv \in AllServers(doc)} : t \in T}
+                                \cup UNION {{[m |-> t.ops[1].m, u |-> WithTail(Under(S[1], BaseFill(t)), "?a=1#top")]} : t \in T} :
+                             /\ x.u.abs /\ x.u.scheme \in {"http", "https"}
+                             /\ Len(x.u.path) > 0 /\ (x.u.path[1] # "" \/ Len(x.u.path) = 1)}}     \* (the path alone must parse as a path)
+   IN {r \in main \cup odd \cup srv \cup tails \cup encv \cup altv \cup schv \cup sform : WellFormed(r)}
 
 (* The order the requests of a document are run in (one router instance per chunk of     *)
 (* this sequence): first the main URLs, each with GET and then POST back to back -- so    *)
